@@ -93,7 +93,9 @@ Record fault := mkFault { f_pt : N; f_kind : N; f_n : N }.
    kind to run (0-based), so every entry fires at most once per request and callback chains are bounded. *)
 Record reg := mkReg { r_pt : N; r_which : N; r_n : N }.
 Inductive scn := Scn (route : bool) (faults : list fault) (regs : list reg) (sub : subreq)
-with subreq := NoSub | Sub (tweens : bool) (s : scn).
+(* place: where the request starts its subrequest -- 0: in the view body; 1: in the tween over the excview tween, on
+   egress (after the rest of the chain returned, before that tween's own egress point) *)
+with subreq := NoSub | Sub (tweens : bool) (place : N) (s : scn).
 Definition s_route (s : scn) := match s with Scn r _ _ _ => r end.
 Definition s_faults (s : scn) := match s with Scn _ f _ _ => f end.
 Definition s_regs (s : scn) := match s with Scn _ _ r _ => r end.
@@ -194,9 +196,17 @@ Definition tween (l : N) (sc : scn) (pin pout : N) (handler : M) : M :=
   seq (hit0 l sc pin) (bind handler (fun r => seq (hit0 l sc pout) (ret r))).
 Definition excview_tween (ev : N) (l : N) (sc : scn) (handler : M) : M :=
   catch handler (error_handler ev l sc).
+Definition sub_place (sc : scn) : N := match s_sub sc with NoSub => 0 | Sub _ p _ => p end.
+(* the subrequest as the view sees it / as the over tween sees it *)
+Definition vsub (sc : scn) (subrun : option M) : option M := if N.eqb (sub_place sc) 1 then None else subrun.
+Definition tsub (sc : scn) (subrun : option M) : option M := if N.eqb (sub_place sc) 1 then subrun else None.
+(* a tween that may start a subrequest on egress: handler, [subrequest], own egress point *)
+Definition tween_x (l : N) (sc : scn) (pin pout : N) (sr : option M) (handler : M) : M :=
+  seq (hit0 l sc pin)
+      (bind handler (fun r => seq (match sr with Some m => m | None => ret 0 end) (seq (hit0 l sc pout) (ret r)))).
 Definition tween_chain (ev : N) (l : N) (sc : scn) (subrun : option M) : M :=
-  tween l sc P_OVER_IN P_OVER_OUT
-    (excview_tween ev l sc (tween l sc P_UNDER_IN P_UNDER_OUT (handle_request l sc subrun))).
+  tween_x l sc P_OVER_IN P_OVER_OUT (tsub sc subrun)
+    (excview_tween ev l sc (tween l sc P_UNDER_IN P_UNDER_OUT (handle_request l sc (vsub sc subrun)))).
 
 (* while callbacks: callback = callbacks.popleft(); callback(...) *)
 Fixpoint resp_cbs (fuel : nat) (l : N) (sc : scn) : M :=
@@ -240,7 +250,7 @@ Definition fin_loop (l : N) (sc : scn) : M :=
 
 (* Router.invoke_request: the try body ... *)
 Definition invoke_chain (ev : N) (l : N) (sc : scn) (tw : bool) (subrun : option M) : M :=
-  if tw then tween_chain ev l sc subrun else handle_request l sc subrun.
+  if tw then tween_chain ev l sc subrun else handle_request l sc (vsub sc subrun).
 Definition invoke_body (ev : N) (l : N) (sc : scn) (tw : bool) (subrun : option M) : M :=
   bind (invoke_chain ev l sc tw subrun) (fun r =>
   seq (resp_loop l sc)
@@ -261,7 +271,7 @@ Fixpoint run_request (ev : N) (l : N) (sc : scn) (tw : bool) : M :=
     (frame l (invoke_request ev l sc tw
        (match s_sub sc with
         | NoSub => None
-        | Sub tw' sc' => Some (run_request ev (l + 1) sc' tw')
+        | Sub tw' _ sc' => Some (run_request ev (l + 1) sc' tw')
         end))).
 
 Definition init_state (s0 : list N) : state := mkSt s0 [] [] [] 0 0.
@@ -292,8 +302,28 @@ Definition ref_default_execution_policy (P : prims) : M :=
   seq (p_setup P) (seq (ref_extensions P) (ref_scope P (ref_invoke_request P true))).
 Definition ref_invoke_subrequest (P : prims) (tw : bool) : M :=
   seq (ref_extensions P) (ref_scope P (ref_invoke_request P tw)).
+(* ViewMethodsMixin.invoke_exception_view (hide_attrs inlined: its own statements leave the model's world alone) *)
+Definition ref_invoke_exception_view (P : prims) (exc : N) (reraise : bool) : M :=
+  bind (seq (p_push P)
+            (finally (catch (p_call_exception_view P exc) (fun e => if reraise then raise exc else raise e))
+                     (p_pop P)))
+       (fun r => if N.eqb r 0 then (if reraise then raise exc else raise (p_exc_notfound P)) else ret r).
 Definition ref_error_handler (P : prims) (k : N) : M :=
-  catch (p_invoke_exception_view P k) (fun k2 => if p_is_notfound P k2 then raise k else raise k2).
+  catch (ref_invoke_exception_view P k false) (fun k2 => if p_is_notfound P k2 then raise k else raise k2).
+(* Router.handle_request *)
+Definition notify_if (P : prims) (n : M) : M := bind (p_has_listeners P) (fun b => if truthy b then n else ret 0).
+Definition ref_handle_tail (P : prims) (rf : M) : M :=
+  seq (notify_if P (p_notify_beforetraversal P))
+  (bind rf (fun _ => bind (p_traverser P) (fun _ =>
+   seq (notify_if P (p_notify_contextfound P))
+   (bind (p_call_view P) (fun r => if N.eqb r 0 then raise (p_exc_notfound P) else ret r))))).
+Definition ref_handle_request (P : prims) : M :=
+  seq (notify_if P (p_notify_newrequest P))
+  (bind (p_has_mapper P) (fun hm =>
+     if truthy hm then
+       bind (p_routes_mapper P) (fun route =>
+         if N.eqb route 0 then ref_handle_tail P (p_root_factory P) else ref_handle_tail P (p_route_factory P))
+     else ref_handle_tail P (p_root_factory P))).
 Definition ref_excview_tween (P : prims) : M := catch (p_handler P) (ref_error_handler P).
 
 (* the leaves as the pipeline interpreter understands them, for the request at level l with scenario sc;
@@ -313,8 +343,19 @@ Definition fin_popleft : M :=
 Definition resp_call (l : N) (sc : scn) (o : N) : M := fun st => hit l sc P_RESP_CB o (N.pred (nr st)) false st.
 Definition fin_call (l : N) (sc : scn) (o : N) : M := fun st => hit l sc P_FIN_CB o (N.pred (nf st)) false st.
 Definition is_notfound (k : N) : bool := N.eqb k K_PM || N.eqb k K_NOTFOUND.
-Definition prims_of (ev l : N) (sc : scn) (subrun : option M) (chain : M) : prims :=
-  mkPrims chain (handle_request l sc subrun)
+(* _call_view as invoke_exception_view sees it: the views in order, a PredicateMismatch moves on to the next one;
+   no view at all => None (0); every view mismatched => the PredicateMismatch is raised *)
+Fixpoint call_views_f (l : N) (sc : scn) (vs : list N) (seen : bool) : M :=
+  match vs with
+  | [] => if seen then raise K_PM else ret 0
+  | p :: rest =>
+      if N.eqb p P_DEFAULT_VIEW then ret p
+      else catch (seq (hit0 l sc p) (ret p))
+                 (fun k2 => if N.eqb k2 K_PM then call_views_f l sc rest true else raise k2)
+  end.
+(* [chain]: what self.handle_request (the tween chain) does; [hr]: what Router.handle_request does *)
+Definition prims_of (ev l : N) (sc : scn) (subrun : option M) (chain hr : M) : prims :=
+  mkPrims chain hr
           (cb_pending rq) resp_popleft (resp_call l sc)
           (fun st => S (length (rq st) + pend 0 P_RESP_CB (s_regs sc) (nr st)))
           (cb_pending fq) fin_popleft (fin_call l sc)
@@ -322,28 +363,36 @@ Definition prims_of (ev l : N) (sc : scn) (subrun : option M) (chain : M) : prim
           (ret 1) (hit0 l sc P_NEWRESP)
           (ret 0) (ret 0)
           (push l) pop
-          (tween l sc P_UNDER_IN P_UNDER_OUT (handle_request l sc subrun))
-          (fun k => frame l (call_views l sc (exc_views ev k)))
-          is_notfound.
+          (tween l sc P_UNDER_IN P_UNDER_OUT hr)
+          is_notfound
+          (hit0 l sc P_NEWREQ) (ret 1)
+          (if s_route sc then hit l sc P_ROUTE_PRED 0 0 true else ret 0)
+          (hit0 l sc P_ROOT_FACTORY) (hit0 l sc P_ROUTE_FACTORY)
+          (hit0 l sc P_BEFORE_TRAV) (hit0 l sc P_TRAVERSER) (hit0 l sc P_CTX_FOUND)
+          (derived_view l sc (vsub sc subrun)) K_NOTFOUND
+          (fun k => call_views_f l sc (exc_views ev k) false).
 (* the tween chain with the GENERATED excview tween in the middle, and the interpreter built from the generated
    programs at every level of the scenario tree (proved equal to run_request / run_top) *)
+Definition gen_hr (ev l : N) (sc : scn) (subrun : option M) : M :=
+  gen_handle_request (prims_of ev l sc subrun (ret 0) (ret 0)).
 Definition gen_chain (ev l : N) (sc : scn) (subrun : option M) : M :=
-  tween l sc P_OVER_IN P_OVER_OUT (gen_excview_tween (prims_of ev l sc subrun (ret 0))).
+  tween_x l sc P_OVER_IN P_OVER_OUT (tsub sc subrun)
+    (gen_excview_tween (prims_of ev l sc subrun (ret 0) (gen_hr ev l sc subrun))).
 Definition prims_top (ev l : N) (sc : scn) (subrun : option M) : prims :=
-  prims_of ev l sc subrun (gen_chain ev l sc subrun).
+  prims_of ev l sc subrun (gen_chain ev l sc subrun) (gen_hr ev l sc subrun).
 Fixpoint gen_run_request (ev : N) (l : N) (sc : scn) (tw : bool) : M :=
   with_fresh_request
     (gen_invoke_subrequest
        (prims_top ev l sc (match s_sub sc with
                            | NoSub => None
-                           | Sub tw' sc' => Some (gen_run_request ev (l + 1) sc' tw')
+                           | Sub tw' _ sc' => Some (gen_run_request ev (l + 1) sc' tw')
                            end)) tw).
 Definition gen_run_top (ev : N) (sc : scn) (s0 : list N) : state * res :=
   with_fresh_request
     (gen_default_execution_policy
        (prims_top ev 0 sc (match s_sub sc with
                            | NoSub => None
-                           | Sub tw' sc' => Some (gen_run_request ev 1 sc' tw')
+                           | Sub tw' _ sc' => Some (gen_run_request ev 1 sc' tw')
                            end))) (init_state s0).
 Definition run_top (ev : N) (sc : scn) (s0 : list N) : state * res :=
   run_request ev 0 sc true (init_state s0).
@@ -377,6 +426,21 @@ Fixpoint before_first (p : pev -> bool) (lg : list pev) : list pev :=
 Definition has_fault (sc : scn) (pt : N) : bool :=
   existsb (fun f => N.eqb (f_pt f) pt && negb (N.eqb (f_kind f) K_FALSE) && negb (N.eqb (f_kind f) 0)) (s_faults sc).
 
+(* finished callbacks of one pass: [fins] ran (origins, in log order), [R] were registered; [cf] finished callbacks
+   had run before.  Nothing of the request happens after its first finished callback but finished callbacks.  No
+   finished callback told to raise: exactly the registered ones, once, in order.  Otherwise -- what
+   _process_finished_callbacks guarantees: a prefix of the registered ones, once, in order, and the run stops short
+   only at a callback that raises (the exception propagates; the remaining ones stay pending and do not run) *)
+Definition fin_last_raises (sc : scn) (cf : N) (fins : list N) : bool :=
+  match fins with
+  | [] => false
+  | _ => negb (N.eqb (find_fault (s_faults sc) P_FIN_CB (cf + N.of_nat (length fins) - 1)) 0)
+  end.
+Definition fin_clause (sc : scn) (cf : N) (fins R : list N) (L : list pev) : bool :=
+  from_first (is_pt P_FIN_CB) (is_pt P_FIN_CB) L &&
+  (if has_fault sc P_FIN_CB
+   then is_prefix fins R && (list_eqb fins R || fin_last_raises sc cf fins)
+   else list_eqb fins R).
 (* one request (level l, scenario sc, through the tweens or not) *)
 Definition judge_own (l : N) (sc : scn) (tw : bool) (L : list pev) : bool :=
   let last_pt := if tw then P_OVER_OUT else P_RENDERER in
@@ -388,9 +452,9 @@ Definition judge_own (l : N) (sc : scn) (tw : bool) (L : list pev) : bool :=
   let rregs := registered 0 (s_regs sc) (before_first (fun e => is_pt P_NEWRESP e || is_pt P_FIN_CB e) L) in
   (* the view (and the exception view) run with this request current *)
   forallb (fun e => negb (is_pt P_VIEW e || is_pt P_EXCVIEW e || is_pt P_EXCVIEW_HTTP e) || e_cur e) L
-  (* finished callbacks: each registered one exactly once, in order, after everything else *)
-  && (has_fault sc P_FIN_CB ||
-      (list_eqb fins (registered 1 (s_regs sc) L) && from_first (is_pt P_FIN_CB) (is_pt P_FIN_CB) L))
+  (* finished callbacks: each registered one exactly once, in order, after everything else (a prefix, ending at
+     the one that raises, when one is told to raise) *)
+  && fin_clause sc 0 fins (registered 1 (s_regs sc) L) L
   (* response callbacks then NewResponse, exactly when a response came out of the tween chain *)
   && (if came_out then
         if has_fault sc P_RESP_CB
@@ -409,13 +473,13 @@ Definition valid_level (sc : scn) : bool :=
                     (negb (N.eqb (f_kind f) K_FALSE) || memN (f_pt f) [P_ROUTE_PRED; P_VIEW_PRED; P_PERMITS]))
           (s_faults sc).
 Fixpoint valid_tree (sc : scn) : bool :=
-  valid_level sc && match s_sub sc with NoSub => true | Sub _ sc' => valid_tree sc' end.
+  valid_level sc && match s_sub sc with NoSub => true | Sub _ _ sc' => valid_tree sc' end.
 
 Fixpoint judge_tree (l : N) (sc : scn) (tw : bool) (lg : list pev) : bool :=
   judge_level l sc tw lg &&
   match s_sub sc with
   | NoSub => true
-  | Sub tw' sc' =>
+  | Sub tw' _ sc' =>
       (* a subrequest that was never started leaves no events; otherwise it is judged like any request *)
       match lvl_log (l + 1) lg with [] => true | _ => judge_tree (l + 1) sc' tw' lg end
   end.
@@ -459,8 +523,7 @@ Definition judge_pass (sc : scn) (cr cf : N) (left : list N) (L : list pev) : bo
   let rregs := left ++ registered_from 0 (s_regs sc) cr cf
                          (before_first (fun e => is_pt P_NEWRESP e || is_pt P_FIN_CB e) L) in
   cur_clause L
-  && (has_fault sc P_FIN_CB ||
-      (list_eqb fins (registered_from 1 (s_regs sc) cr cf L) && from_first (is_pt P_FIN_CB) (is_pt P_FIN_CB) L))
+  && fin_clause sc cf fins (registered_from 1 (s_regs sc) cr cf L) L
   && (if came_out then
         if has_fault sc P_RESP_CB
         then is_prefix resps rregs && Nat.leb nnew 1
@@ -506,7 +569,8 @@ Fixpoint get_scn (fuel : nat) (v : val) : option scn :=
       olet r := get_bool r in olet fs := get_list_of get_fault fs in olet rs := get_list_of get_reg rs in
       match sb with
       | VL [] => Some (Scn r fs rs NoSub)
-      | VL [tw; s] => olet tw := get_bool tw in olet s := get_scn fuel' s in Some (Scn r fs rs (Sub tw s))
+      | VL [tw; pl; s] => olet tw := get_bool tw in olet pl := get_N pl in olet s := get_scn fuel' s in
+                          Some (Scn r fs rs (Sub tw pl s))
       | _ => None
       end
   | _ => None
